@@ -67,6 +67,7 @@ const (
 
 func floatRat(flt float64) (result slip.Object) {
 	var neg bool
+	orig := flt
 
 	den := int64(1)
 	if flt < 0.0 {
@@ -83,7 +84,13 @@ func floatRat(flt float64) (result slip.Object) {
 				if neg {
 					flt = -flt
 				}
-				return ratReduce(big.NewRat(int64(flt), den))
+				rat := big.NewRat(int64(flt), den)
+				if f, _ := rat.Float64(); f != orig {
+					// The repeated multiplications by 10.0 accumulated
+					// rounding errors so use the exact value instead.
+					_ = rat.SetFloat64(orig)
+				}
+				return ratReduce(rat)
 			}
 			flt *= 10.0
 		}
